@@ -1,4 +1,5 @@
 # C09 — latch, barrier, event and call_once release exactly when due (structural part; DESIGN.md §5 C09)
+import re
 from engine.core import AnalysisBroken, P, T, callee_of, callee_short, cond_atoms, loc_of, strip, forward, block_path, is_moved
 from engine.kinds import (LockFlow, FactFlow, CountFlow, check_guarded, precedes_on_all_paths, eval_walk, loop_of, reaching_init)
 from .common import facts, lib, driver, local_init
